@@ -108,6 +108,11 @@ func runDeleWithdraw(ctx *action.Context, tx action.RawTx) (bool, action.Respons
 		return helpers.LogAndReturnFalse(ctx.Logger, action.ErrUnserializable, withdraw.Tags(), err)
 	}
 
+	// the amount must be a non-negative amount of OLT
+	if !withdraw.Amount.IsValid(ctx.Currencies) || withdraw.Amount.Currency != "OLT" {
+		return helpers.LogAndReturnFalse(ctx.Logger, action.ErrInvalidAmount, withdraw.Tags(), errors.New("invalid withdraw amount"))
+	}
+
 	height := ctx.Header.GetHeight()
 	options, err := ctx.GovernanceStore.GetNetworkDelegOptions()
 	if err != nil {
